@@ -369,8 +369,23 @@ def run_rebind(ex, case):
     note(ex, "copy_rebound")
     det = {"label": label, "keys": [repr(k) for k in keys], "target_label": case["target_label"]}
     before_containers = dict(tgt.containers)
+    own = None
+    if case.get("no_overwrite"):
+        # the destination holds its own definition on a key that also occurs in the source; with
+        # overwrite=False it is kept when it is the *same location* - under a rebinding the source's
+        # entry denotes another location (inside 'sub') and must be copied
+        note(ex, "rebound_no_overwrite")
+        if label == case["target_label"]:
+            td[k2] = 0
+            tr[k2] = tr["other"] + 7
+            own = (k2, tr["other"] + 7)
+        else:
+            tr["sub"][k2] = tr["other"] + 7          # same location as the rebound target: must be kept
     try:
-        tgt.copy_expr_from(src, label, bindings=bind)
+        if case.get("no_overwrite"):
+            tgt.copy_expr_from(src, label, bindings=bind, overwrite=False)
+        else:
+            tgt.copy_expr_from(src, label, bindings=bind)
     except (Abort, Inconclusive):
         raise
     except Exception as e:
@@ -379,6 +394,26 @@ def run_rebind(ex, case):
     if set(tgt.containers) != set(before_containers) or any(tgt.containers[k2] is not before_containers[k2] for k2 in before_containers):
         ex.fail(f"copy_expr_from with a rebinding map changed the target manager's own containers: "
                 f"{ {k2: str(v) for k2, v in tgt.containers.items()} }", det)
+        return
+    if case.get("no_overwrite"):
+        sub = tr["sub"]
+        if own is not None:
+            got = tr[own[0]]._expr
+            if got is None or not (got == own[1]):
+                ex.fail(f"copy with overwrite=False: the destination's own definition of {label}[{own[0]!r}] became {got}", det)
+                return
+            todo = shapes
+        else:
+            got = sub[k2]._expr
+            if got is None or not (got == tr["other"] + 7):
+                ex.fail(f"copy with overwrite=False replaced the existing definition of the rebound location {k2!r}: {got}", det)
+                return
+            todo = shapes[1:]
+        for t, mk in todo:
+            got = sub[t]._expr
+            if got is None or not (got == mk(sub)):
+                ex.fail(f"copy with overwrite=False under a rebinding: definition of {t!r} in the rebound container is {got}, expected {mk(sub)}", det)
+                return
         return
     if label == case["target_label"]:
         # a second, plain copy on the same target manager must land on the target's own container
@@ -460,4 +495,5 @@ def cases(tier):
                 for by in ("str", "ref"):
                     for two in (True, False):
                         out.append({"kind": "rebind", "build": b, "label": label, "target_label": tl, "keys": keys, "bind_by": by, "two_defs": two})
+                    out.append({"kind": "rebind", "build": b, "label": label, "target_label": tl, "keys": keys, "bind_by": by, "two_defs": True, "no_overwrite": True})
     return out
